@@ -147,19 +147,28 @@ def full_alphabet(bounds):
 
 
 def draw_alphabet(rng, fa, size):
-    """A sub-alphabet of `size` calls: one of each essential kind, the rest drawn from everything."""
+    """A sub-alphabet of `size` calls: one call of each essential kind (in this order of priority),
+    the last slot(s) drawn from the whole rule (invalid whence, low > high, negative offsets, ...)."""
     d, chunk = fa["d"], fa["chunk"]
-    pick = []
     small = [c for c in fa["reads"] if 0 < c[1] <= max(1, chunk - 1)]
     big = [c for c in fa["reads"] if c[1] >= chunk]
-    pick.append(rng.choice(small or fa["reads"]))
-    pick.append(rng.choice(big or fa["reads"]))
-    pick.append(rng.choice([c for c in fa["seeks0"] if 0 <= c[1] <= d]))
-    pick.append(rng.choice(fa["seeks12"]))
-    good = [c for c in fa["ranges"] if 0 <= c[1] < c[2]]
-    pick.append(rng.choice(good))
-    pick.append(fa["close"][0])
-    everything = fa["reads"] + fa["seeks0"] * 2 + fa["seeks12"] * 2 + fa["bad"] + good * 2 + fa["ranges"]
+    limited = [c for c in fa["ranges"] if 0 <= c[1] < c[2] < d] or [c for c in fa["ranges"] if 0 <= c[1] < c[2]]
+    good = [c for c in fa["ranges"] if 0 <= c[1] <= c[2]]
+    essential = [
+        rng.choice(small or fa["reads"]),
+        rng.choice(big or fa["reads"]),
+        rng.choice(limited),                                          # a limit below the size
+        rng.choice([c for c in fa["seeks0"] if 0 <= c[1] <= d]),      # io.SeekStart
+        rng.choice([c for c in fa["seeks12"] if c[2] == 2]),          # io.SeekEnd
+        fa["close"][0],
+        rng.choice([c for c in fa["seeks12"] if c[2] == 1]),          # io.SeekCurrent
+        rng.choice(good),
+    ]
+    pick = []
+    for c in essential[:max(1, size - 1)]:
+        if c not in pick:
+            pick.append(c)
+    everything = fa["reads"] + fa["seeks0"] * 2 + fa["seeks12"] * 3 + fa["bad"] * 2 + good * 2 + fa["ranges"]
     guard = 0
     while len(pick) < size and guard < 1000:
         c = rng.choice(everything)
@@ -377,30 +386,30 @@ def report_failure(ctx, f, fdesc, bounds, active, origin):
 
 
 # ----------------------------------------------------------------------------- trace validation
-def validate_traces(ctx, paths, finfo, fixed, corrupt_rng=None):
-    """Group recorded traces by (file, conc), one TLC run per group.  Returns (accepted, rejected
-    list, states).  With corrupt_rng: corrupt one field of one trace and return whether TLC rejected it."""
+def validate_traces(ctx, paths, finfo, fixed, corrupt_rng=None, pool=None):
+    """Group recorded traces by (file, conc), one TLC run per group (in parallel).  Returns
+    (accepted, rejected list, selftest).  With corrupt_rng: one payload scalar of one trace is
+    corrupted in an extra copy, which TLC must reject (selftest = ("done", rejected?, ...))."""
     groups = {}
     for p in paths:
         t = json.load(open(p))
         if t.get("problem") or len(t["workers"]) != t["conc"] or any(not w for w in t["workers"]) or not t["manager"]:
             continue
         groups.setdefault((t["file"], t["conc"]), []).append((p, t))
-    accepted, rejected = 0, []
     selftest = None
+    jobs = []
     for gi, ((fid, conc), lst) in enumerate(sorted(groups.items())):
-        lst = lst[:40]
-        trs, reads, seeks, ranges, maxcalls = [], set(), set(), set(), 1
-        items = list(lst)
+        items = list(lst[:40])
         if corrupt_rng is not None and selftest is None:
             p, t = items[0]
             t2 = json.loads(json.dumps(t))
-            cands = [(who, i) for who in ("manager",) for i, e in enumerate(t2["manager"]) if e[0] == "manager.send.reqc"]
+            cands = [i for i, e in enumerate(t2["manager"]) if e[0] == "manager.send.reqc"]
             if cands:
-                who, i = corrupt_rng.choice(cands)
+                i = corrupt_rng.choice(cands)
                 t2["manager"][i][2] += 1        # one payload scalar off by one
                 items.append(("<corrupted copy of %s: manager event %d hi+1>" % (os.path.basename(p), i), t2))
                 selftest = (gi, len(items) - 1)
+        trs, reads, seeks, ranges, maxcalls = [], set(), set(), set(), 1
         for p, t in items:
             calls = 0
             for e in t["client"]:
@@ -424,8 +433,16 @@ def validate_traces(ctx, paths, finfo, fixed, corrupt_rng=None):
                            "  Traces <- mc_Traces\nINVARIANTS Book TraceInv\nPOSTCONDITION Report\nCHECK_DEADLOCK FALSE\n") % (
                 conc, RBUF, maxcalls, tset(sorted(reads)), tset(sorted(seeks)), tla(fixed[0]), tla(fixed[1]), tla(fixed[2])),
         }
-        res = ctx.tlc(mod, cfg=mod + ".cfg", data=data, timeout=1500, workers=1, dfs=True, extra=["-noGenerateSpecTE"],
-                      label="Trace_RacConc %s conc=%d (%d traces)" % (fid, conc, len(trs)))
+        jobs.append((gi, fid, conc, items, mod, data))
+
+    def one(job):
+        gi, fid, conc, items, mod, data = job
+        return job, ctx.tlc(mod, cfg=mod + ".cfg", data=data, timeout=1500, workers=1, dfs=True, heap="2g", extra=["-noGenerateSpecTE"],
+                            label="Trace_RacConc %s conc=%d (%d traces)" % (fid, conc, len(items)))
+
+    results = list(pool.map(one, jobs)) if pool else [one(j) for j in jobs]
+    accepted, rejected = 0, []
+    for (gi, fid, conc, items, mod, data), res in results:
         flat = " ".join(res["out"].split())
         i = flat.find('"TRACE-REPORT",')
         if res["error"] or i < 0:
@@ -549,14 +566,15 @@ def run(ctx, only_replay=None):
     for f in futs:
         f.result()
     depth = 5 if thorough else 4
-    asize = 8 if thorough else 8
     draws = 3 if thorough else 1
+    asizes = {"c1": 8, "c2": 8, "c3": 9, "c4": 8, "c5": 9, "ml": 7, "m4": 7, "mk": 7, "b3": 6, "b2": 6}
+    if thorough:
+        asizes.update({"c3": 8, "c5": 8})
     cfgs = []
     for fid in sorted(fdescs):
         fa = full_alphabet(bounds[fid])
         for _ in range(draws):
-            cfgs.append({"file": fid, "fdesc": fdescs[fid],
-                         "alpha": draw_alphabet(rng, fa, asize if len(bounds[fid]) <= 6 else asize - 2), "depth": depth, "origin": "alphabet"})
+            cfgs.append({"file": fid, "fdesc": fdescs[fid], "alpha": draw_alphabet(rng, fa, asizes[fid]), "depth": depth, "origin": "alphabet"})
     # the client scripts of the RacConc configurations, in bytes, on the matching real files
     for geo, rl, sp, rg in ((G1, [1, 2, 6], [0, 1, 3], R1[:2]), (G2, [1, 2, 9], [0, 4], [(1, 2)]), (G3, [1, 5], [0, 4], [(1, 6)])):
         u = geo[1]
@@ -607,8 +625,12 @@ def run(ctx, only_replay=None):
                       {"stderr": seq["stderr"], "current": seq["current"]})
         raise ToolingError("sequential replay crashed")
     active = {k: False for k in WITNESS}
-    for f in seq["failures"][:20]:
-        report_failure(ctx, f, fdescs[f["file"]], bounds[f["file"]], active, "sequential replay")
+    seq_sigs = {}
+    for f in seq["failures"]:
+        sig = (f["kind"], f["file"], re.sub(r"\d+", "#", f["what"])[:60])
+        seq_sigs[sig] = seq_sigs.get(sig, 0) + 1
+        if seq_sigs[sig] <= 2 and len(ctx.violations) < 12:
+            report_failure(ctx, f, fdescs[f["file"]], bounds[f["file"]], active, "sequential replay")
     ctx.log("sequential: %d scripts, %d calls (%d compared, %d bytes compared), %d failures; calls per op@cursor: %s" % (
         seq["scripts_run"], seq["calls_run"], seq["calls_checked"], seq["bytes_checked"], len(seq["failures"]), seq["cursor_states"]))
 
@@ -660,7 +682,7 @@ def run(ctx, only_replay=None):
                 return False
         return True
 
-    per_conc = 4000 if thorough else 260
+    per_conc = 2500 if thorough else 260
     concs = [1, 2, 4]
     chosen = {c: [] for c in concs}
     skipped_known = 0
@@ -713,6 +735,7 @@ def run(ctx, only_replay=None):
     conc_runs = conc_calls = leakchecks = unconfirmed = 0
     conc_fail = 0
     by_conc = {}
+    seen_sigs = {}
     for c, lst, r in pool.map(run_shard, list(enumerate(shards))):
         if r["crash"]:
             cur = r["current"]
@@ -732,7 +755,10 @@ def run(ctx, only_replay=None):
         by_conc[c] = by_conc.get(c, 0) + r["scripts_run"]
         for f in r["failures"]:
             conc_fail += 1
-            report_failure(ctx, f, fdescs[f["file"]], bounds[f["file"]], active, "concurrent replay")
+            sig = (f["kind"], f.get("site"), re.sub(r"\d+", "#", f["what"])[:60], classify(f, bounds[f["file"]], active))
+            seen_sigs[sig] = seen_sigs.get(sig, 0) + 1
+            if seen_sigs[sig] <= 3:          # three witnesses per kind of failure are enough
+                report_failure(ctx, f, fdescs[f["file"]], bounds[f["file"]], active, "concurrent replay")
     ctx.log("concurrent (-race): %d script runs %s, %d calls, %d goroutine-leak checks, %d failures (%d scripts avoided as exact known constructs, %d unconfirmed slow calls)" % (
         conc_runs, by_conc, conc_calls, leakchecks, conc_fail, skipped_known, unconfirmed))
 
@@ -759,7 +785,7 @@ def run(ctx, only_replay=None):
             paths += r["traces"]
             for f in r["failures"]:
                 report_failure(ctx, f, fdescs[f["file"]], bounds[f["file"]], active, "trace-mode replay")
-        traces_ok, rejected, selftest = validate_traces(ctx, paths, finfo, fixed_flags, corrupt_rng=rng)
+        traces_ok, rejected, selftest = validate_traces(ctx, paths, finfo, fixed_flags, corrupt_rng=rng, pool=pool)
         for rj in rejected[:5]:
             ctx.violation("the channel operations recorded from conc_reader.go (Concurrency %d, file %s, script %s) are not an interleaving that "
                           "RacConc (FIXED=%s) allows: %d of %d events matched%s" % (
@@ -787,10 +813,10 @@ def run(ctx, only_replay=None):
         "samples": samples,
         "evaluations": seq["scripts_run"] + conc_runs,
         "distinct_nontrivial": nontrivial,
-        "rule": "every call sequence of length %d over a per-file alphabet of %d calls (drawn per seed from the full rule: offsets at chunk "
+        "rule": "every call sequence of length %d over a per-file alphabet of %s calls (one call of each essential kind plus draws, per seed, from the full rule: offsets at chunk "
                 "boundaries +-1/0/dsize+-1/negatives, lengths 0/1/chunk-1/chunk/chunk+1/all, all whences, SeekRange pairs) plus the RacConc "
                 "client scripts and counterexamples, exported by TLC from RacReader.tla with expected replies; non-trivial = distinct scripts "
-                "that deliver bytes in some Read and contain a successful Seek/SeekRange" % (depth, asize),
+                "that deliver bytes in some Read and contain a successful Seek/SeekRange" % (depth, "6-9"),
         "exhaustive": True,
         "sequential_scripts": seq["scripts_run"], "sequential_calls": seq["calls_run"], "sequential_calls_compared": seq["calls_checked"],
         "bytes_compared": seq["bytes_checked"], "calls_per_op_and_cursor_state": seq["cursor_states"],
@@ -828,6 +854,6 @@ def replay(ctx, path):
     bounds = [0] + [c[1] for c in r["files"][fdesc["id"]]["chunks"]]
     if not r["failures"]:
         print("the script now runs to its end with every reply as expected: not reproduced on this tree")
-    active = {k: True for k in WITNESS}
+    active = {k: (rep.get("key") == k) for k in WITNESS}
     for f in r["failures"]:
         report_failure(ctx, f, fdesc, bounds, active, "replay of " + path)
